@@ -243,6 +243,25 @@ def explore(ctx):
                 ctx.count('wcs=cube ' + desc.split(' rotated')[0])
                 if not all(close(a_, b_, 1e-9) for a_, b_ in zip(g3, e3)):
                     fails.append('PPV centroid through a cube WCS with %s: %r, the transformed mean pixel position is %r' % (desc, g3, [float(x) for x in e3]))
+                # one statistic object whose metadata dictionary is edited in place (another velocity axis, another
+                # pixel scale): every later answer is that of a statistic built with the edited metadata
+                mdl = dict(md, vaxis=rng.randrange(3))
+                live = PPVStatistic(stat_of(pts, 3), mdl)
+                values(live, names)
+                for _ in range(2):
+                    if rng.random() < 0.7:
+                        mdl['vaxis'] = rng.randrange(3)
+                    else:
+                        mdl['spatial_scale'] = rng.choice([2.0, 0.5, 7.0]) * u.arcsec
+                    oa, ua = values(live, names)
+                    ob, ub = values(PPVStatistic(stat_of(pts, 3), dict(mdl)), names)
+                    for k in names:
+                        same = (abs((oa[k] - ob[k] + 90) % 180 - 90) < 1e-6) if k == 'position_angle' else close(oa[k], ob[k], 1e-9)
+                        if (not same and not (oa[k] != oa[k] and ob[k] != ob[k])) or ua[k] != ub[k]:
+                            fails.append('%s after the metadata of a live statistic was changed in place to %s is %r %s, a statistic built with that metadata gives %r %s'
+                                         % (k, {k2: str(v2) for k2, v2 in mdl.items()}, oa[k], ua[k], ob[k], ub[k]))
+                            break
+                ctx.count('metadata_edited_in_place')
                 if vs is not None:
                     st2 = PPVStatistic(stat_of(pts, 3), dict(md, velocity_scale=4 * vs))
                     if not close(float((1 * st2.v_rms).value), 4 * base['v_rms'], 1e-9):
